@@ -75,6 +75,8 @@ def argv_for(case, in_bam, out_bam, d, mode, extra=()):
         a += ['-max_associated_fragments', str(p['max_associated_fragments'])]
     if p.get('umi_hamming_distance') is not None:
         a += ['-umi_hamming_distance', str(p['umi_hamming_distance'])]
+    if p.get('contig'):
+        a += ['-contig', p['contig']]
     if p.get('assignment_radius') is not None:
         a += ['-assignment_radius', str(p['assignment_radius'])]
     return a + list(extra)
